@@ -79,6 +79,10 @@ def translArsOp (op : String) (args : List String) : Option String :=
   | "t.ars.lvb", [s] => do
     let b ← hexToBytes s
     some (out sBytes (AutomaticRegistrationService.encode_len_val_bytes ext b))
+  | "t.ars.prim.strlen", [s] => do
+    -- prelude primitive `PyObj.strLen` (no function of the unchanged tree uses it; a changed one may)
+    let b ← hexToBytes s
+    some (sInt (PyObj.strLen ⟨b⟩))
   | "t.ars.rlv", [d, i] => do
     let d ← hexToBytes d
     let i ← intOfString i
